@@ -9,6 +9,7 @@ import (
 	"io"
 	"math/rand"
 	"net/http"
+	"os"
 	"runtime"
 	"sort"
 	"strings"
@@ -635,6 +636,15 @@ func runHistory(k int) (fp string, viol []string, lg []string, desc string) {
 		}
 	}
 	s.pp = piecepicker.New(pieces, s.maxDup, srcs, s.seq)
+	if os.Getenv("C09_DEBUG") == fmt.Sprint(k) {
+		fmt.Println("DEBUG layout", l.String(), "edges", keys(s.edges))
+		for i := range pieces {
+			fmt.Println(" piece", i, "done", pieces[i].Done, "sections", len(pieces[i].Data))
+			for _, sec := range pieces[i].Data {
+				fmt.Println("    ", sec.Name, sec.Offset, sec.Length)
+			}
+		}
+	}
 	desc = fmt.Sprintf("pieces=%d files=%d seq=%v maxDup=%d webseeds=%d wsMax=%d", np, nf, s.seq, s.maxDup, nws, s.wsMax)
 	defer func() {
 		for _, w := range s.ws {
